@@ -59,25 +59,27 @@ theorem fatArr_wrote32 (o w : Nat) (h : FatWrote fs d d' o (bytesLe32 w)) (ho : 
 end
 
 /-- what a FAT update does to the device: the first FAT copy becomes `arr'`, nothing outside the FAT copies changes -/
-structure FatUpd (fs : FsState) (d d' : Dev) (arr' : Array Nat) : Prop where
+structure FatUpd (fs : FsState) (c : Nat) (d d' : Dev) (arr' : Array Nat) : Prop where
   step : DevStep d d'
   fs_eq : d'.fs = d.fs
   arr : fatArr fs d'.img = arr'
   frame : ∀ q, (q < (fatSliceOf fs).beginOff ∨
       (fatSliceOf fs).beginOff + (fatSliceOf fs).mirrors * (fatSliceOf fs).size ≤ q) →
     d'.img.getByte q = d.img.getByte q
+  /-- only the windows of the entry of `c` in the FAT copies change -/
+  fine : ∀ q, ¬ FatEntryPos fs c q → d'.img.getByte q = d.img.getByte q
 
 theorem FatWrote.of_sameStore {fs : FsState} {d d1 d' : Dev} {o : Nat} {bs : List Nat} (hs : SameStore d d1)
     (h : FatWrote fs d1 d' o bs) : FatWrote fs d d' o bs :=
   ⟨(DevStep.of_sameStore hs).trans h.step, h.fs_eq.trans hs.fs, fun i hi => by rw [h.first i hi, hs.img],
-   fun q hq => by rw [h.frame q hq, hs.img]⟩
+   fun q hq => by rw [h.frame q hq, hs.img], fun q hq => by rw [h.fine q hq, hs.img]⟩
 
 /-- `FatTrait::set` at an entry of the table, on a volume already marked dirty -/
 theorem run_table_set (fs : FsState) (s : DiskSlice) (hs : IsFatSlice fs s) (c : Nat) (v : FatValue) (d : Dev)
     (hfa : d.failAt = none) (hcd : d.fs.curDirty = true) (hwf : d.img.WF) (hg : Geo fs d.img.size)
     (hc : c < fs.totalClusters + 2) :
     ∃ d' s' arr', run (Table.set DiskSlice.strm fs.fatType s c v) d = (.ok s', d') ∧ IsFatSlice fs s' ∧
-      Fat.set fs.fatType (fatArr fs d.img) c v = .ok arr' ∧ FatUpd fs d d' arr' := by
+      Fat.set fs.fatType (fatArr fs d.img) c v = .ok arr' ∧ FatUpd fs c d d' arr' := by
   have hin := hg.inRange d.img hc
   unfold InRange u32Lim at hin
   rw [fatArr_size] at hin
@@ -98,7 +100,8 @@ theorem run_table_set (fs : FsState) (s : DiskSlice) (hs : IsFatSlice fs s) (c :
     obtain ⟨d1, h1, hw1⟩ := run_fat_writeAll fs { s with offset := c * 2 } ⟨hb, hsz, hm, hvf⟩
       (bytesLe16 (Table.rawOfValue .fat16 v % 65536)) (by simp [bytesLe16])
       (by show c * 2 + 2 ≤ s.size; rw [hsz]; omega) d hfa hcd hwf hg
-    refine ⟨d1, _, _, h1, ⟨hb, hsz, hm, hvf⟩, ?_, hw1.step, hw1.fs_eq, fatArr_wrote16 _ _ hw1 (by show c * 2 + 2 ≤ _; omega), hw1.frame⟩
+    refine ⟨d1, _, _, h1, ⟨hb, hsz, hm, hvf⟩, ?_, hw1.step, hw1.fs_eq, fatArr_wrote16 _ _ hw1 (by show c * 2 + 2 ≤ _; omega), hw1.frame,
+      fun q hq => hw1.fine q (fun i hi h => hq ⟨i, hi, by rw [hft]; exact h.1, by rw [hft]; exact h.2⟩)⟩
     simp only [Fat.set, setRaw16, u32Lim, fatArr_size, rawOfValue_eq]
     rw [if_neg (by omega), if_neg (by omega)]
   | fat12 =>
@@ -123,7 +126,8 @@ theorem run_table_set (fs : FsState) (s : DiskSlice) (hs : IsFatSlice fs s) (c :
       (by rw [hs1.failAt]; exact hfa) (by rw [hs1.fs]; exact hcd) (by rw [hs1.img]; exact hwf)
       (by rw [hs1.img]; exact hg)
     have hw := hw2.of_sameStore hs1
-    refine ⟨d2, _, _, h2, ⟨hb, hsz, hm, hvf⟩, ?_, hw.step, hw.fs_eq, fatArr_wrote16 _ _ hw (by show c + c / 2 + 2 ≤ _; omega), hw.frame⟩
+    refine ⟨d2, _, _, h2, ⟨hb, hsz, hm, hvf⟩, ?_, hw.step, hw.fs_eq, fatArr_wrote16 _ _ hw (by show c + c / 2 + 2 ≤ _; omega), hw.frame,
+      fun q hq => hw.fine q (fun i hi h => hq ⟨i, hi, by rw [hft]; exact h.1, by rw [hft]; exact h.2⟩)⟩
     simp only [Fat.set, setRaw12, u32Lim, fatArr_size, rawOfValue_eq, pack12]
     rw [if_neg (by omega), if_neg (by omega), rd16_fatArr fs d.img _ (by omega), hb]
   | fat32 =>
@@ -149,7 +153,8 @@ theorem run_table_set (fs : FsState) (s : DiskSlice) (hs : IsFatSlice fs s) (c :
       (by rw [hs1.failAt]; exact hfa) (by rw [hs1.fs]; exact hcd) (by rw [hs1.img]; exact hwf)
       (by rw [hs1.img]; exact hg)
     have hw := hw2.of_sameStore hs1
-    refine ⟨d2, _, _, h2, ⟨hb, hsz, hm, hvf⟩, ?_, hw.step, hw.fs_eq, fatArr_wrote32 _ _ hw (by show c * 4 + 4 ≤ _; omega), hw.frame⟩
+    refine ⟨d2, _, _, h2, ⟨hb, hsz, hm, hvf⟩, ?_, hw.step, hw.fs_eq, fatArr_wrote32 _ _ hw (by show c * 4 + 4 ≤ _; omega), hw.frame,
+      fun q hq => hw.fine q (fun i hi h => hq ⟨i, hi, by rw [hft]; exact h.1, by rw [hft]; exact h.2⟩)⟩
     simp only [Fat.set, set32, getRaw32, setRaw32, u32Lim, fatArr_size, rawOfValue_eq, imgFatRaw]
     rw [if_neg (by omega), if_neg (by omega)]
     simp only
